@@ -414,6 +414,24 @@ def cases(tier, rng):
                 if not b:
                     continue
                 yield {"op": "strequal", "enc": enc, "r": [a], "s": b, "single": True}
+    # 2d. NumPy's spellings of concatenation on flat arrays and 2-d blocks (np.append with and without axis, concatenate, vstack, hstack)
+    for _ in range(400 if big else 60):
+        enc = rng.choice(ENCS)
+        codes = list(range(len(ALPH[enc]))) if enc != "BaseEncoding" else [ord(ch) for ch in ALPH[enc]]
+        w = rng.choice([1, 2, 3, 5])
+        blk = lambda h: [[rng.choice(codes) for _ in range(w)] for _ in range(h)]
+        flat = lambda n: [rng.choice(codes) for _ in range(n)]
+        shape = rng.choice(["ff", "mm", "mm", "mf", "fm"])
+        a = flat(rng.choice([0, 1, 4])) if shape[0] == "f" else blk(rng.choice([1, 2, 3]))
+        b = flat(rng.choice([1, 3])) if shape[1] == "f" else blk(rng.choice([1, 2]))
+        if shape == "mm":
+            for f, axis in (("append", None), ("append", 0), ("concatenate", 0), ("concatenate", None), ("vstack", None)):
+                yield {"op": "npjoin", "enc": enc, "a": a, "b": b, "f": f, "axis": axis}
+        elif shape == "ff":
+            for f, axis in (("append", None), ("concatenate", None), ("hstack", None), ("append", 0)):
+                yield {"op": "npjoin", "enc": enc, "a": a, "b": b, "f": f, "axis": axis}
+        else:
+            yield {"op": "npjoin", "enc": enc, "a": a, "b": b, "f": "append", "axis": None}
     # 3. str_equal, split, join
     for _ in range(600 if big else 120):
         enc = rng.choice(ENCS)
@@ -495,6 +513,24 @@ def impl(c):
     from bionumpy.encoded_array import EncodedArray, EncodedRaggedArray
     from bionumpy.io.strops import split, join, str_equal
     op = c["op"]
+    if op == "npjoin":
+        # NumPy's other spellings of concatenation on flat arrays and rectangular (2-d) blocks: np.append (axis None flattens),
+        # np.concatenate / vstack along rows, np.hstack of flat arrays
+        E = _enc(c["enc"])
+        mk = lambda x: EncodedArray(np.array(x, dtype=np.uint8), E)
+        a, b = mk(c["a"]), mk(c["b"])
+        f = c["f"]
+        if f == "append":
+            r = np.append(a, b) if c["axis"] is None else np.append(a, b, axis=c["axis"])
+        elif f == "concatenate":
+            r = np.concatenate([a, b]) if c["axis"] is None else np.concatenate([a, b], axis=c["axis"])
+        elif f == "vstack":
+            r = np.vstack([a, b])
+        else:
+            r = np.hstack([a, b])
+        if not isinstance(r, EncodedArray) or r.encoding != E:
+            return {"err": "not-an-encoded-array-of-the-same-encoding"}
+        return {"shape": [int(x) for x in r.shape], "codes": [int(x) for x in np.asarray(r.raw()).ravel()], "text": [int(x) for x in np.asarray(E.decode(r).raw()).ravel()]}
     if op == "strequal" and c.get("single"):
         one = _build(c["enc"], {"t": "flat", "l": c["r"][0]})
         other = _text_of(c["s"], c["enc"]) if c["enc"] == "BaseEncoding" else _build(c["enc"], {"t": "flat", "l": c["s"]})
@@ -681,6 +717,14 @@ def impl(c):
 
 def oracle(c):
     op = c["op"]
+    if op == "npjoin":
+        a, b = np.array(c["a"], dtype=np.int64), np.array(c["b"], dtype=np.int64)
+        f = c["f"]
+        r = (np.append(a, b) if c["axis"] is None else np.append(a, b, axis=c["axis"])) if f == "append" else \
+            (np.concatenate([a, b]) if c["axis"] is None else np.concatenate([a, b], axis=c["axis"])) if f == "concatenate" else \
+            np.vstack([a, b]) if f == "vstack" else np.hstack([a, b])
+        dec = _dec_table(c["enc"])
+        return {"shape": [int(x) for x in r.shape], "codes": [int(x) for x in r.ravel()], "text": [int(dec[x]) for x in r.ravel()]}
     if op == "strequal":
         return [r == c["s"] for r in c["r"]]
     if op == "join":
@@ -794,6 +838,8 @@ def _strip(x):
 def agree(c, got, exp):
     if isinstance(got, dict) and got.get("refused") and c.get("vform") == "enc_other":
         return True
+    if c["op"] == "npjoin" and c["f"] in ("vstack", "hstack") and isinstance(got, str) and "no implementation found" in got:
+        return True      # NumPy functions the encoded arrays do not support refuse loudly (TypeError from the dispatch): not an operation the property speaks about
     return core.canon(_strip(got)) == core.canon(exp)
 
 
